@@ -130,6 +130,27 @@ let judge_arith (lhs : string list) (rhs : string list) (line : string) =
     report line codes
   | _ -> report line [z_of_int 99]
 
+let obs_of_fields = function
+  | [d; cnd; er; extra; xpost; ypost; ctxsame] ->
+      let craw = z_of_dec_string cnd in
+      mkObs (dec_req d) (cond_of_Z craw) craw (err_of_token er) (z_of_dec_string extra)
+        (dec_of_token xpost) (dec_of_token ypost) (ctxsame = "1")
+  | _ -> failwith "obs fields"
+
+let rec split_at (sep : string) (l : string list) : string list * string list =
+  match l with
+  | [] -> ([], [])
+  | h :: t when h = sep -> ([], t)
+  | h :: t -> let (a, b) = split_at sep t in (h :: a, b)
+
+let edop_of_token = function
+  | "Abs" -> Some EAbs | "Add" -> Some EAdd | "Ceil" -> Some ECeil | "Floor" -> Some EFloor | "Mul" -> Some EMul
+  | "Neg" -> Some ENeg | "Quantize" -> Some EQuantize | "Quo" -> Some EQuo | "QuoInteger" -> Some EQuoInteger
+  | "Reduce" -> Some EReduce | "Rem" -> Some ERem | "Round" -> Some ERound | "Sub" -> Some ESub
+  | "RoundToIntegralValue" -> Some ERtiv | "RoundToIntegralExact" -> Some ERtie | _ -> None
+
+let composite_ops = ["Sqrt"; "Cbrt"; "Exp"; "Ln"; "Log10"; "Pow"; "Ceil"; "Floor"]
+
 (* "dec,cond,err" *)
 let mres_of_token (t : string) : mres option =
   if t = "-" then None else
@@ -153,6 +174,48 @@ let judge_line (line : string) =
       if cab <> "0" || tab <> "0" then Hashtbl.replace nontrivial (String.concat " " lhs) ();
       bump opcount "CmpTriple";
       report line (judge_cmp (dec_req a) (dec_req b) (dec_req c) (zi cab) (zi cbc) (zi cac) (zi tab) (zi tba) (zi tbc) (zi tac) (zi taa))
+  | "tr" :: opn :: p :: emax :: emin :: traps :: _ , rhs when List.length rhs = 15 ->
+      let (a, b) = split_at "|" rhs in
+      let oT = obs_of_fields a and o0 = obs_of_fields b in
+      bump opcount ("Traps" ^ opn);
+      if List.nth a 2 <> "none" then Hashtbl.replace nontrivial (String.concat " " lhs) ();
+      let comp = List.mem opn composite_ops in
+      ignore p; ignore emax; ignore emin;
+      let codes = oracle_c03 (cond_of_Z (z_of_dec_string traps)) comp oT o0 in
+      let modelled = (try ignore (op_of_token opn); true with Failure _ -> false) in
+      let corr =
+        if not modelled then [] else
+        (match lhs with
+         | [_; opn; p; emax; emin; traps; rnd; x; y; e; al; dpre] ->
+             let c = mkCtx (z_of_dec_string p) (z_of_dec_string emax) (z_of_dec_string emin)
+                       (cond_of_Z (z_of_dec_string traps)) (rounder_of_token rnd) in
+             let k = mkCase (op_of_token opn) c (dec_req x) (dec_req y) (z_of_dec_string e) (alias_of_token al) (dec_req dpre) in
+             corr_full k oT
+         | _ -> [z_of_int 99]) in
+      report line (corr @ codes)
+  | "ed" :: p :: emax :: emin :: traps :: rnd :: r0 :: r1 :: r2 :: r3 :: _n :: steps, rhs ->
+      let (a, b) = split_at "|" rhs in
+      bump opcount "ErrDecimalProgram";
+      let c = mkCtx (z_of_dec_string p) (z_of_dec_string emax) (z_of_dec_string emin)
+                (cond_of_Z (z_of_dec_string traps)) (rounder_of_token rnd) in
+      let rec parse_steps = function
+        | op :: dst :: sa :: sb :: q :: rest ->
+            (match edop_of_token op, parse_steps rest with
+             | Some o, Some l -> Some ({ s_op = o; s_dst = nat_of_int (int_of_string dst); s_a = nat_of_int (int_of_string sa);
+                                         s_b = nat_of_int (int_of_string sb); s_q = z_of_dec_string q } :: l)
+             | _, _ -> None)
+        | [] -> Some []
+        | _ -> failwith "ed steps" in
+      let refcodes = if a = b then [] else [z_of_int 63] in
+      if List.length steps > 5 then Hashtbl.replace nontrivial (String.concat " " lhs) ();
+      let modelcodes =
+        (match parse_steps steps, a with
+         | Some prog, [q0; q1; q2; q3; fl; er; _ints] ->
+             judge_ed c [dec_req r0; dec_req r1; dec_req r2; dec_req r3] prog
+               [dec_req q0; dec_req q1; dec_req q2; dec_req q3] (cond_of_Z (z_of_dec_string fl)) (err_of_token er)
+         | Some _, _ -> [z_of_int 99]
+         | None, _ -> []) in
+      report line (refcodes @ modelcodes)
   | ["md"; opn; p; emax; emin; x; y; e; mi; k], rhs when List.length rhs = 16 ->
       let c = mkCtx (z_of_dec_string p) (z_of_dec_string emax) (z_of_dec_string emin) (cond_of_Z Z0) RHalfUp in
       let arr = Array.of_list rhs in
